@@ -99,3 +99,20 @@ bool nest_bad(nest_Node *root) {
   return true;
 }
 }  // namespace verif_control
+
+// ---- SIBLING-FP control: the decoder keeps the adaptive state in float, the encoder in double ---------
+namespace verif_control {
+struct fp_BitEncoder { double p; void Update(bool b) { p = p * 0.9 + (b ? 0.0 : 0.1); } };
+struct fp_BitDecoder { float p; void Update(bool b) { p = p * 0.9f + (b ? 0.0f : 0.1f); } };
+void fp_use(fp_BitEncoder *e, fp_BitDecoder *d) { e->Update(true); d->Update(true); }
+}  // namespace verif_control
+
+// ---- NARROW-LEDGER control (C08): symbol ids stored in a 16-bit look-up table --------------------------
+namespace verif_control {
+void c08_narrow_bad(std::vector<uint16_t> *lut, uint32_t num_symbols) {
+  for (uint32_t i = 0; i < num_symbols; ++i) {
+    const uint16_t entry = static_cast<uint16_t>(i);
+    lut->push_back(entry);
+  }
+}
+}  // namespace verif_control
